@@ -18,7 +18,7 @@ theorem Same.measure {s s' : SS} (h : Same s s') : s'.measure = s.measure := by
 theorem Same.trans {a b c : SS} (h1 : Same a b) (h2 : Same b c) : Same a c :=
   ⟨h2.1.trans h1.1, h2.2.trans h1.2⟩
 
-theorem popNode_same (sel : Sel) (s : SS) (isT : Bool) (nid : Nat) : Same s (popNode sel s isT nid) := by
+theorem popNode_same (sel : Sel) (s : SS) (isT : Bool) (node : HEntry) : Same s (popNode sel s isT node) := by
   unfold popNode
   simp only []
   split <;> exact ⟨rfl, rfl⟩
